@@ -191,3 +191,42 @@ def through_locals(fn, e, depth: int = 0):
         if v is not None:
             return through_locals(fn, v, depth + 1)
     return e
+
+
+def always_exits(block: list) -> bool:
+    if not block:
+        return False
+    last = block[-1]
+    if isinstance(last, (ast.Return, ast.Raise, ast.Continue, ast.Break)):
+        return True
+    if isinstance(last, ast.If):
+        return always_exits(last.body) and always_exits(last.orelse)
+    return False
+
+
+def dominating_conditions(fn, parents: dict, node) -> list:
+    """Conditions known to hold when NODE runs (as positive expressions, conjuncts flattened, single-use locals looked through):
+    tests of enclosing `if` statements whose body holds NODE, and - for every earlier sibling `if T: <always leaves>` of an
+    enclosing block - the negation of T when T is written `not X` (so `if not (a and b): return` dominates with a, b)."""
+    out = []
+    cur = node
+    while id(cur) in parents:
+        par = parents[id(cur)]
+        if isinstance(par, ast.If):
+            if any(cur is s_ for s_ in par.body):
+                out += conjuncts(fn, par.test)
+        for fld in ('body', 'orelse', 'finalbody'):
+            blk = getattr(par, fld, None)
+            if isinstance(blk, list) and any(cur is s_ for s_ in blk):
+                for s_ in blk[:[id(x) for x in blk].index(id(cur))]:
+                    if isinstance(s_, ast.If) and not s_.orelse and always_exits(s_.body):
+                        t = s_.test
+                        if isinstance(t, ast.Name):
+                            v = local_single_assignment(fn, t.id)
+                            t = v if v is not None else t
+                        if isinstance(t, ast.UnaryOp) and isinstance(t.op, ast.Not):
+                            out += conjuncts(fn, t.operand)
+        if isinstance(par, (ast.FunctionDef, ast.AsyncFunctionDef)):
+            break
+        cur = par
+    return out
